@@ -439,6 +439,55 @@ class _ReplaceNode(ast.NodeTransformer):
         return node
 
 
+def _replace_node(e, old, new, memo):
+    """`e` with the node `old` replaced by `new`: a copy of the spine only, unchanged sub-expressions are
+    shared (expanded expressions are DAGs -- a tree walk would visit shared parts once per path to them)"""
+    if e is old:
+        return new
+    if not isinstance(e, ast.AST):
+        return e
+    k = id(e)
+    if k in memo:
+        return memo[k]
+    changed = False
+    vals = {}
+    for f in e._fields:
+        if not hasattr(e, f):
+            continue
+        v = getattr(e, f)
+        if isinstance(v, ast.AST):
+            nv = _replace_node(v, old, new, memo)
+            changed |= nv is not v
+        elif isinstance(v, list):
+            nv = [_replace_node(x, old, new, memo) for x in v]
+            changed |= any(a is not b for a, b in zip(nv, v))
+        else:
+            nv = v
+        vals[f] = nv
+    if not changed:
+        memo[k] = e
+        return e
+    node = e.__class__(**vals)
+    for a in ("lineno", "col_offset", "end_lineno", "end_col_offset"):
+        if hasattr(e, a):
+            setattr(node, a, getattr(e, a))
+    if getattr(e, "_noinline", False):
+        node._noinline = True
+    # f(*helper()) with the helper's returned tuple written out: f(a, b)
+    if isinstance(node, ast.Call) and any(isinstance(a, ast.Starred) and isinstance(a.value, (ast.Tuple, ast.List)) and not any(isinstance(x, ast.Starred) for x in a.value.elts) for a in node.args):
+        args = []
+        for a in node.args:
+            if isinstance(a, ast.Starred) and isinstance(a.value, (ast.Tuple, ast.List)) and not any(isinstance(x, ast.Starred) for x in a.value.elts):
+                args.extend(a.value.elts)
+            else:
+                args.append(a)
+        node.args = args
+    if isinstance(node, ast.Subscript) and isinstance(node.ctx, ast.Load) and isinstance(node.value, (ast.Tuple, ast.List)) and not any(isinstance(x, ast.Starred) for x in node.value.elts) and isinstance(node.slice, ast.Constant) and isinstance(node.slice.value, int) and not isinstance(node.slice.value, bool) and -len(node.value.elts) <= node.slice.value < len(node.value.elts):
+        node = node.value.elts[node.slice.value]
+    memo[k] = node
+    return node
+
+
 def _first_helper_call(expr, caller):
     """Innermost-first inlinable call inside an (expanded) expression."""
     found = []
@@ -510,6 +559,51 @@ def _const_truth(test):
         return None
 
 
+def _fold_ifexps(e, decide, memo=None):
+    """`e` with every conditional expression whose test `decide` answers replaced by the branch taken.
+    Memoised on node identity and copying the spine only: expanded expressions are DAGs."""
+    if memo is None:
+        memo = {}
+    if not isinstance(e, ast.AST):
+        return e
+    k = id(e)
+    if k in memo:
+        return memo[k]
+    if isinstance(e, (ast.Lambda,)):
+        memo[k] = e
+        return e
+    changed = False
+    vals = {}
+    for f in e._fields:
+        if not hasattr(e, f):
+            continue
+        v = getattr(e, f)
+        if isinstance(v, ast.AST):
+            nv = _fold_ifexps(v, decide, memo)
+            changed |= nv is not v
+        elif isinstance(v, list):
+            nv = [_fold_ifexps(x, decide, memo) for x in v]
+            changed |= any(a is not b for a, b in zip(nv, v))
+        else:
+            nv = v
+        vals[f] = nv
+    node = e
+    if changed:
+        node = e.__class__(**vals)
+        for a in ("lineno", "col_offset", "end_lineno", "end_col_offset"):
+            if hasattr(e, a):
+                setattr(node, a, getattr(e, a))
+        for a in ("_noinline", "_from_callee"):
+            if getattr(e, a, False):
+                setattr(node, a, True)
+    if isinstance(node, ast.IfExp):
+        v = decide(node.test)
+        if v is not None:
+            node = node.body if v else node.orelse
+    memo[k] = node
+    return node
+
+
 class _FoldAssume(ast.NodeTransformer):
     """`a if <test> else b` with the test decided by the scenario (`inverse` True / False ...)"""
 
@@ -555,7 +649,15 @@ def _inlined(expr, p, done, assume, max_paths, caller):
     returned expression; the path forks per returning path of the helper (its conditions and
     effects are added); a helper path that raises ends the caller's path as a raise."""
     if expr is not None and assume and any(isinstance(n, ast.IfExp) for n in uwalk(expr)):
-        expr = _FoldAssume(assume).visit(expr)
+        def _dec(test, assume=assume):
+            v = _truth_under(test, assume)
+            if v is None:
+                v = _const_truth(test)
+            if v is None and callable(assume.get("__decide__")):
+                v = assume["__decide__"](test)
+            return v
+
+        expr = _fold_ifexps(expr, _dec)
     if expr is None or caller is None or _CTX["program"] is None or len(_CTX["stack"]) >= MAX_INLINE_DEPTH:
         return [(p, expr)]
     hit = _first_helper_call(expr, caller)
@@ -583,9 +685,9 @@ def _inlined(expr, p, done, assume, max_paths, caller):
             continue
         q.env = dict(p.env)
         q.kind = None
-        ret = _FoldConst().visit(q.ret) if q.ret is not None else q.ret
+        ret = _fold_ifexps(q.ret, _const_truth) if q.ret is not None else q.ret
         q.ret = None
-        e2 = _ReplaceNode(call, ret).visit(clone_keep(expr, call) if multi else expr) if expr is not call else ret
+        e2 = _replace_node(expr, call, ret, {}) if expr is not call else ret
         out.extend(_inlined(e2, q, done, assume, max_paths, caller))
     return out
 
@@ -789,7 +891,17 @@ def _run_stmt(st, p, done, assume, max_paths, caller=None):
         for p0, et in _inlined(expand(st.test, p.env), p, done, assume, max_paths, caller):
             if decided is None and any(isinstance(n, ast.IfExp) for n in uwalk(et)):
                 # (a if c else None) is not None, with c decided on this path: the test of the chosen value
-                et = _FoldDecided(p0, assume).visit(clone(et))
+                def _dec2(test, p0=p0):
+                    v = _truth_under(test, assume)
+                    if v is None:
+                        v = _const_truth(test)
+                    if v is None:
+                        v = _already_decided(test, p0)
+                    if v is None and callable(assume.get("__decide__")):
+                        v = assume["__decide__"](test)
+                    return v
+
+                et = _fold_ifexps(et, _dec2)
             dec = decided
             if dec is None and p0.env:
                 dec = _const_truth(et)  # a test on constant arguments of an inlined helper
@@ -834,7 +946,20 @@ def _run_stmt(st, p, done, assume, max_paths, caller=None):
         p.effects.append(("with", st, [expand(i.context_expr, p.env) for i in st.items]))
         return _run_block(st.body, [p], done, assume, max_paths, caller)
     if isinstance(st, ast.Try):
-        raise AnalysisIncomplete("try statement at line %d" % st.lineno)
+        # the normal exit (body, then else), and one path per handler entered from the state before the
+        # body (the effects of a partially executed body are not modelled: try bodies in this code base
+        # are look-ups and checks); `finally` follows every path that goes on
+        p.effects.append(("try", st))
+        live = _run_block(list(st.body) + list(st.orelse), [p.fork()], done, assume, max_paths, caller)
+        for h in st.handlers:
+            ph = p.fork()
+            ph.conds.append((ast.Name(id="__raised__", ctx=ast.Load()), ast.Name(id="__raised__", ctx=ast.Load()), True))
+            if h.name:
+                ph.env.pop(h.name, None)
+            live.extend(_run_block(h.body, [ph], done, assume, max_paths, caller))
+        if st.finalbody:
+            live = _run_block(st.finalbody, live, done, assume, max_paths, caller)
+        return live
     raise AnalysisIncomplete("unsupported statement %s at line %d" % (type(st).__name__, getattr(st, "lineno", 0)))
 
 
